@@ -208,11 +208,18 @@ Fixpoint reval (fuel : nat) (defs : relop -> rexpr) (dom : dom_def) {struct fuel
   end.
 
 (* ---- the arithmetic: which loop over which per-element expression *)
+(* the reduction algorithm fixes the ORDER of the accumulation, which matters
+   for a floating-point sum: std::inner_product is the left fold
+   acc(...acc(acc(init, e0), e1)..., en); std::transform_reduce / std::reduce
+   may group and permute the terms in any way (libstdc++ sums random-access
+   ranges in blocks of four), so their value is not determined by the model. *)
+Inductive inner_alg := ALeftFold | AUnspecifiedOrder.
+
 Inductive vop :=
   | VIndexLoop (e : eexpr)     (* n = size(); for (i < n) self[i] = e(self[i], f[i]);  (Expects on both subscripts) *)
   | VRangeFor (e : eexpr)      (* for (auto &f_i : f) f_i = e(f_i, -, v); *)
-  | VInner (eq_sizes : bool) (init : Z) (acc : ebin) (e : eexpr)
-                               (* [Expects(equal sizes);] std::inner_product(a, b, init, acc, e) *)
+  | VInner (alg : inner_alg) (eq_sizes : bool) (init : Z) (acc : ebin) (e : eexpr)
+                               (* [Expects(equal sizes);] std::inner_product | std::transform_reduce (a, b, init, acc, e) *)
   | VConcat (order : list side).   (* ret.insert(end(ret), x...) for x in order *)
 
 Definition veval_binary (v : vop) (a b : vec) : option vec :=
@@ -239,10 +246,11 @@ Fixpoint inner_product_with (acc g : f64 -> f64 -> f64) (a b : vec) (init : f64)
 
 Definition veval_inner (v : vop) (a b : vec) : option f64 :=
   match v with
-  | VInner eqs init acc e =>
+  | VInner ALeftFold eqs init acc e =>
       if negb eqs || Nat.eqb (length a) (length b)
       then inner_product_with (ebin_eval acc) (fun x y => eeval e x y F64.zero) a b (F64.of_bits init)
       else None
+  | VInner AUnspecifiedOrder _ _ _ _ => None
   | _ => None
   end.
 
